@@ -237,6 +237,61 @@ func randomPlan(r *rng, n int, failPct int) ([][]int, []int) {
 	return plan, retries
 }
 
+// skipLatticeCase - several ErrorSkipParents sources that share dependents, which have dependents of their own, next to
+// unrelated tasks that fail or succeed: a vertex may be marked as skipped more than once, at different times, while
+// other work is still in flight. The outcome rules are the ones of every other run.
+func skipLatticeCase(seed uint64, idx int, props map[string]bool) *fw.Result {
+	r := newRng(seed, "C14-skiplattice", idx)
+	n := 5 + r.intn(5)
+	nsrc := 2 + r.intn(2)
+	have := map[[2]int]bool{}
+	var edges [][2]int
+	add := func(a, b int) {
+		if a > b && !have[[2]int{a, b}] {
+			have[[2]int{a, b}] = true
+			edges = append(edges, [2]int{a, b})
+		}
+	}
+	// sources 0..nsrc-1, the shared dependent p = nsrc, its dependent g = nsrc+1
+	for s := 0; s < nsrc; s++ {
+		add(nsrc, s)
+	}
+	add(nsrc+1, nsrc)
+	for _, e := range randomDag(r, n, 10+r.intn(30)) {
+		if e[1] < nsrc && e[0] < nsrc {
+			continue // the sources stay independent of each other: they end at different times
+		}
+		add(e[0], e[1])
+	}
+	plan, retries := randomPlan(r, n, 30)
+	for s := 0; s < nsrc; s++ {
+		plan[s], retries[s] = []int{SKIPPARENTS}, 0
+		if r.chance(1, 6) {
+			plan[s], retries[s] = []int{ERR, SKIPPARENTS}, 1
+		}
+	}
+	serial, maxpar, mname := modeOf(idx)
+	if maxpar == 2 {
+		maxpar = 2 + r.intn(2)
+	}
+	spec := &Spec{N: n, Hist: canonHist(r, n, edges, retries), Plan: plan, Serial: serial, MaxPar: maxpar, PSeed: r.u64(), Buffer: r.chance(1, 4)}
+	spec.AttemptErrs, spec.WrapSkip = r.chance(1, 2), r.chance(1, 3)
+	res := newRes(map[string]interface{}{"spec": spec})
+	res.Cells = []string{fmt.Sprintf("skip-lattice|%s|sources=%d", mname, nsrc)}
+	for k := 0; k < 6; k++ {
+		spec.Policy = "rand"
+		if k == 5 {
+			spec.Policy = "all"
+		}
+		if v := runOne(spec, res, props); v != nil {
+			return v
+		}
+		spec.PSeed++
+	}
+	res.Sig = specShape(spec)
+	return res
+}
+
 // ------------------------------------------------------------------------------------------------
 // C13
 
@@ -395,17 +450,24 @@ func init() {
 		Race:          true,
 		WorkersPerCPU: 3,
 		Technique:     "runtime monitoring under the Go race detector: outcome rules over the event log, the returned *dag.Errors (errors.As / errors.Is per entry) and the recorded Logger lines of real Graph.Run executions, with controller-placed cancellation points",
-		Rule: "every DAG on n<=3 (quick) / n<=4 (thorough) vertices x outcome assignment over {ok, err, ErrorSkipParents, retry scripts} x cancel point {none, before Run, after the k-th release for every k, from inside each task} x mode, each under EVERY completion order (n<=3) or PRNG orders; random DAGs up to 10 vertices beyond; contexts that end with Canceled or DeadlineExceeded, task errors wrapping context errors, buffered output, an earlier failed Run of the same graph; " +
+		Rule: "every DAG on n<=3 (quick) / n<=4 (thorough) vertices x outcome assignment over {ok, err, ErrorSkipParents, retry scripts} x cancel point {none, before Run, after the k-th release for every k, from inside each task} x mode, each under EVERY completion order (n<=3) or PRNG orders; random DAGs up to 10 vertices beyond; contexts that end with Canceled or DeadlineExceeded, task errors wrapping context errors, buffered output, an earlier failed Run of the same graph; skip lattices (2-3 independent ErrorSkipParents sources sharing a dependent that has dependents, beside unrelated tasks); " +
 			"distinct = (graph, plan, mode, cancel point); non-trivial = at least one task fails, skips its parents or the context is cancelled",
 		Assumptions: append(common, "tasks already launched and waiting for a SetMaxParallel slot when cancellation is seen count as in flight (DESIGN N1); counted in evidence"),
 		Cases: func(tier string) int {
 			if tier == "thorough" {
-				return 900000
+				return 900000 + 30000
 			}
-			return 6000
+			return 6000 + 400
 		},
 		PerCaseTimeoutS: 120,
 		Run: func(seed uint64, idx int, tier string) *fw.Result {
+			base := 6000
+			if tier == "thorough" {
+				base = 900000
+			}
+			if idx >= base {
+				return skipLatticeCase(seed, idx, allProps)
+			}
 			r := newRng(seed, "C14", idx)
 			maxN := 3
 			if tier == "thorough" && idx%2 == 1 {
